@@ -917,12 +917,13 @@ def contracts():
         cs += [Reduce(which, False), Reduce(which, True)]
     cs += [ImmutableNew('abc', 1, fail=True), SingletonNew('abc', 2, fail=True)]
     cs += [DataClassCall(i) for i in range(1, SHAPES['abc'])] + [DataClassCall(3, fail=True), DataClassReduce()]
-    cs += [WrapperInit(False), HashableFunction(True), HashableFunction(False)]
+    w = WrapperInit(True)  # failed on the pinned commit (update_wrapper overwrote the fresh hash); repaired by a fix: commit
+    w.replay_fn = 'hashable_function_rewrap'
+    cs += [WrapperInit(False), w, HashableFunction(True), HashableFunction(False)]
     cs += [ArrayDataNew('i'), ArrayDataNew('u', 'i'), ArrayDataNew('b'), ArrayDataNew('f'), ArrayDataNew('c'), ArrayDataNew('U'), ArrayDataIdem()]
     cs += [SystemHash(True), SystemHash(False)]
     return cs
 
 
 # fails on the unchanged tree (candidate defect, notes/C17-ext.md): update_wrapper overwrites the freshly computed hash
-PARKED = [WrapperInit(True)]
-PARKED[0].replay_fn = 'hashable_function_rewrap'
+PARKED = []
